@@ -305,14 +305,16 @@ func runC06(r *engine.Run) {
 		}
 	})
 
-	// ---- registry: every CID x direction
+	// ---- registry: every CID x direction (from the reset registry: no proprietary CID is registered,
+	// so the range 0x80..0xFF has no payload either)
+	lorawan.VerifRegistryReset()
 	r.PartDims("registry", []string{"cid:256", "direction:2"}, 512, func(c *engine.Case) {
 		cid := byte(c.Index)
 		uplink := c.Index >= 256
 		pl, size, err := lorawan.GetMACPayloadAndSize(uplink, lorawan.CID(cid))
 		cmd := spec.Lookup(uplink, cid)
 		if cmd == nil {
-			if err == nil && cid < 0x80 {
+			if err == nil {
 				c.Fail(fmt.Sprintf("registry/unexpected/%02x", cid), fmt.Sprintf("CID %02x uplink=%v has a registered payload %T size %d; the specification defines none", cid, uplink, pl, size), nil)
 			}
 			c.Outcome("registry/no-payload")
